@@ -1,5 +1,6 @@
 -- all property theorem modules
 import HbsLms.Props.C04
+import HbsLms.Props.C06
 import HbsLms.Props.C08
 import HbsLms.Props.C09
 import HbsLms.Props.C13
